@@ -18,7 +18,8 @@ PID = 'C05'
 RULE = ("matrix: source in {Bit, bool, BitVector/Unsigned/Signed[1..W]} as {input port, signal, variable, temporary, typed "
         "constant} + literals {ints in/out of range, Null, Full, True/False, bit strings}; target in {Bit, BitVector/"
         "Unsigned/Signed[1..W+1]}; form in {<<= (clocked), <<= (concurrent), .next, @= , .value, ^=, .push, slice target, "
-        "element target, Variable[T](src) local init, Signal[T](src) local init, sub-entity input connection, sub-entity "
+        "element target, Variable[T](src) / Signal[T](src) local init (plain, delayed_init, with name / maybe_uninitialized), Array list "
+        "initialiser element, Array element target, sub-entity input connection, sub-entity "
         "output connection, if-expression merge, function-return merge}.  Accepted designs run over all source values.  "
         "distinct_nontrivial = distinct (source type, qualifier, target type, form) whose verdict was decided "
         "(rejected where required, or accepted and compared on every source value).")
